@@ -488,15 +488,85 @@ fn order_case(rng: &mut Rng, idx: u64, out: &mut Out) {
     }
 }
 
+/// Connections declared WHILE the network is being built: some layers, a connection, more
+/// layers, a connection into one of the new layers. The result must be the network one gets by
+/// adding all layers first and declaring both connections afterwards (bit for bit), and the
+/// reference with both connections must be met.
+fn interleaved_case(rng: &mut Rng, idx: u64, out: &mut Out) {
+    use neurons::network::Network;
+    let kind = (idx % 3) as usize;
+    let acts = [Act::Tanh, Act::Sigmoid, Act::Linear, Act::Leaky];
+    let depth = rng.range(4, 7);
+    let mut cfg = chain(rng, kind, depth, &acts, false, true);
+    let shapes = match cfg.shapes() {
+        Ok(s) => s,
+        Err(_) => {
+            out.nontrivial = false;
+            return;
+        }
+    };
+    let n = cfg.layers.len();
+    let pairs: Vec<(usize, usize)> = (0..n).flat_map(|a| (a..n).map(move |b| (a, b))).filter(|(a, b)| shapes[*a].0.count() == shapes[*b].0.count()).collect();
+    // first connection among the first `cut` layers, second one into a later layer
+    let cut = rng.range(2, n - 1);
+    let early: Vec<(usize, usize)> = pairs.iter().cloned().filter(|(_, b)| *b < cut).collect();
+    let late: Vec<(usize, usize)> = pairs.iter().cloned().filter(|(_, b)| *b >= cut).collect();
+    if early.is_empty() || late.is_empty() {
+        out.nontrivial = false;
+        return;
+    }
+    let first = *rng.pick(&early);
+    let cands: Vec<(usize, usize)> = late.iter().cloned().filter(|(a, b)| *b != first.1 && *a != first.0).collect();
+    if cands.is_empty() {
+        out.nontrivial = false;
+        return;
+    }
+    let second = *rng.pick(&cands);
+    cfg.skips = vec![first, second];
+    cfg.skipacc = ACCS[((idx / 3) % 5) as usize];
+    cfg.keep_default_accumulations = true;
+    let params = gen_params(&cfg, rng, -1.0, 1.0).unwrap();
+    let x = varied_input(rng, cfg.input);
+    out.key = format!("interleaved {} | {} layers, connect{:?}, {} more layers, connect{:?}", cfg.describe(), cut, first, n - cut, second);
+    let interleaved = guard(|| {
+        let mut net = Network::new(lib_shape(cfg.input));
+        net.set_accumulation(lib_acc(cfg.skipacc), lib_acc(cfg.loopacc));
+        for l in cfg.layers[..cut].iter() {
+            add_layer(&mut net, l);
+        }
+        net.connect(first.0, first.1);
+        for l in cfg.layers[cut..].iter() {
+            add_layer(&mut net, l);
+        }
+        net.connect(second.0, second.1);
+        set_params(&mut net, &params);
+        flat(&net.predict(&tensor_of(cfg.input, &x)))
+    });
+    let standard = build(&cfg, Some(&params)).and_then(|net| guard(|| flat(&net.predict(&tensor_of(cfg.input, &x)))));
+    out.count("networks_built_with_interleaved_connect_calls", 1);
+    match (interleaved, standard) {
+        (Ok(p), Ok(q)) => {
+            if !bits_eq(&p, &q) {
+                out.viol("skip:interleaved:results-differ", format!("{}: declaring the connections while building gives a different prediction than declaring them after all layers", out.key), case_json(&cfg, &params, &x));
+            }
+        }
+        (Err(m), Ok(_)) => out.viol("skip:interleaved:refused", format!("{}: {}", out.key, short(&m, 200)), case_json(&cfg, &params, &x)),
+        (Ok(_), Err(m)) => out.viol("skip:rejected:valid-connection", format!("{}: the standard order was refused: {}", out.key, short(&m, 200)), case_json(&cfg, &params, &x)),
+        (Err(_), Err(_)) => {
+            out.count("interleaved_cases_refused_in_both_orders", 1);
+        }
+    }
+}
+
 impl Monitor for C16 {
     fn id(&self) -> &'static str {
         "C16"
     }
     fn gens(&self, tier: Tier) -> Vec<(&'static str, u64)> {
-        vec![("values", tier.pick(90_000, 1_800_000)), ("bookkeeping", tier.pick(45_000, 900_000)), ("gradients", tier.pick(22_500, 450_000)), ("orders", tier.pick(20_000, 400_000))]
+        vec![("values", tier.pick(90_000, 1_800_000)), ("bookkeeping", tier.pick(45_000, 900_000)), ("gradients", tier.pick(22_500, 450_000)), ("orders", tier.pick(20_000, 400_000)), ("interleaved", tier.pick(15_000, 300_000))]
     }
     fn rule(&self) -> &'static str {
-        "networks of depth 2..7 in which every layer input has the same element count (flat dense chains, spatial chains of 'same' convolutions / deconvolutions / 1x1 pools / deconvolution+pool pairs, mixed flat<->spatial chains on r*r elements, spatial chains whose shapes differ at equal element count via stride-2 convolutions / deconvolutions; every seventh network has some layers wrapped into feedback blocks so that blocks occur as sources and targets). values: 1..2 connections drawn from ALL index pairs a <= b with equal counts (sources and targets disjoint), accumulation = case index mod 5; predict vs reference network where layer b processes combine(ordinary input, input fed to a) (reshaped row-major), within the running f32 bound; every fourth case adds a loop connection (1..2 iterations, any loop accumulation, with and without input skips) over a range no connection starts in, preferably ending right in front of a skip target, so that the target combines the looped output with its source. bookkeeping: scripts of 2..4 connect() calls biased towards same-target, same-source and chained pairs; after every call the prediction must equal the reference containing exactly the accepted connections (either reading of 'input fed to a' for chains), a call with a new source and a new target must be accepted, a discarded earlier connection is identified by re-evaluating the reference without it. gradients: additive accumulation (every fifth case adds its last connection only after the network object has run a forward and a backward pass), hooked backward vs dual-number derivative of the MSE of the reference WITH the skips. orders: a chain with one skip connection (target anywhere, also inside a looped range) and one loop connection, declared as connect-then-loopback and as loopback-then-connect: both orders must be accepted alike and predict bit-identically. The loop accumulation (which concerns nothing in the networks without loops) is set to each of the five values in turn. Distinct = distinct (network, connections | script) descriptors."
+        "networks of depth 2..7 in which every layer input has the same element count (flat dense chains, spatial chains of 'same' convolutions / deconvolutions / 1x1 pools / deconvolution+pool pairs, mixed flat<->spatial chains on r*r elements, spatial chains whose shapes differ at equal element count via stride-2 convolutions / deconvolutions; every seventh network has some layers wrapped into feedback blocks so that blocks occur as sources and targets). values: 1..2 connections drawn from ALL index pairs a <= b with equal counts (sources and targets disjoint), accumulation = case index mod 5; predict vs reference network where layer b processes combine(ordinary input, input fed to a) (reshaped row-major), within the running f32 bound; every fourth case adds a loop connection (1..2 iterations, any loop accumulation, with and without input skips) over a range no connection starts in, preferably ending right in front of a skip target, so that the target combines the looped output with its source. bookkeeping: scripts of 2..4 connect() calls biased towards same-target, same-source and chained pairs; after every call the prediction must equal the reference containing exactly the accepted connections (either reading of 'input fed to a' for chains), a call with a new source and a new target must be accepted, a discarded earlier connection is identified by re-evaluating the reference without it. gradients: additive accumulation (every fifth case adds its last connection only after the network object has run a forward and a backward pass), hooked backward vs dual-number derivative of the MSE of the reference WITH the skips. interleaved: some layers, connect(), more layers, connect() into one of the new layers - must predict bit-identically to the network whose connections are declared after all layers. orders: a chain with one skip connection (target anywhere, also inside a looped range) and one loop connection, declared as connect-then-loopback and as loopback-then-connect: both orders must be accepted alike and predict bit-identically. The loop accumulation (which concerns nothing in the networks without loops) is set to each of the five values in turn. Distinct = distinct (network, connections | script) descriptors."
     }
     fn assumptions(&self) -> Vec<&'static str> {
         vec!["chained connections (a target that is also a source): both the raw and the accumulated reading of 'the input that was fed to layer a' are accepted", "multiplicative/subtractive/mean/overwrite accumulations are only checked on values (the property claims gradients for additive accumulation only)"]
@@ -509,6 +579,7 @@ impl Monitor for C16 {
             "bookkeeping" => bookkeeping_case(&mut rng, idx, &mut out),
             "gradients" => gradient_case(&mut rng, idx, &mut out),
             "orders" => order_case(&mut rng, idx, &mut out),
+            "interleaved" => interleaved_case(&mut rng, idx, &mut out),
             _ => panic!("unknown generator {}", gen),
         }
         out
